@@ -1060,6 +1060,9 @@ class Interp:
     def mark_owner(self, f, owner):
         return (f, owner)
 
+    def from_real_dummy(self):
+        pass
+
     def from_real(self, obj):
         """map a real Python object found in the module's globals to its symbolic counterpart"""
         if isinstance(obj, (int, str, bool, float, type(None), bytes)):
